@@ -770,7 +770,7 @@ func (c *Ctx) ruleSitesTONL() {
 					c.dispatch(si, rule, []string{"CallExpr<node>", "Ident<unparen(CallExpr.Fun)>"})
 					// NAMEID: the identifier resolves to a package-level function of this package
 					nid := si.take("callee-object", func(l Lit) bool { return l.Pos && c.isPkgLevelFuncTest(l) })
-					c.require(si, rule, "CALLEE-BY-OBJECT(+)", nid, "direct call is matched by the spelling of the identifier only (no TypesInfo.Uses[ident].(*types.Func) at package scope): a local variable or parameter sharing the name is reported")
+					c.require(si, rule, "CALLEE-BY-OBJECT(+)", nid, "direct call is matched by the spelling of the identifier only (no TypesInfo.Uses[ident].(*types.Func) at package scope): a local variable or parameter sharing the name is reported - or \"at package scope\" is asked of another package's scope than the function's own (fn.Parent() == fn.Pkg().Scope()): a dot-imported function is never found")
 				} else if viaPkgName {
 					c.dispatch(si, rule, []string{"CallExpr<node>", "SelectorExpr<unparen(CallExpr.Fun)>", "Ident<SelectorExpr.X>"})
 					pn := si.take("pkgname", func(l Lit) bool {
@@ -1023,6 +1023,9 @@ func (c *Ctx) isPkgLevelFuncTest(l Lit) bool {
 		okR := false
 		degenerate := false
 		for _, x := range lits {
+			if c.foreignScopeCmp(x) {
+				return false // "declared at package level" asked of another package's scope than the function's own
+			}
 			if usesFunc(x) {
 				okR = true
 			}
@@ -1421,8 +1424,13 @@ const pkgLevelDetail = "the type is identified by (package path, name) without r
 // pkgLevelPred: the literal says that the named type's object is declared in its package's scope -
 // obj.Parent() == pkg.Scope(), possibly as a disjunction with obj.Parent() == nil (objects that were not entered
 // into any scope: hand-built test fixtures).
-func (c *Ctx) pkgLevelPred() func(l Lit) bool {
+// scopeCmp: l compares <o>.Parent() of a go/types object with a (*types.Package).Scope(); sameObj tells whether that
+// is the scope of o's own package (<o>.Pkg().Scope()).
+func (c *Ctx) scopeCmp(l Lit) (isCmp, sameObj bool) {
 	P := c.P
+	if l.Kind != "eq" || l.X == nil || l.Y == nil {
+		return false, false
+	}
 	isParent := func(v ssa.Value) bool {
 		return P.RootsAllDeep(v, func(r ssa.Value) bool {
 			call, ok := r.(*ssa.Call)
@@ -1432,13 +1440,93 @@ func (c *Ctx) pkgLevelPred() func(l Lit) bool {
 	isScope := func(v ssa.Value) bool {
 		return P.RootsAllDeep(v, func(r ssa.Value) bool { return P.CallTo(r, "(*go/types.Package).Scope") != nil })
 	}
+	recvOf := func(call *ssa.Call) ssa.Value {
+		if call.Call.IsInvoke() {
+			return call.Call.Value
+		}
+		if len(call.Call.Args) > 0 {
+			// a method promoted from the embedded go/types.object: the receiver is the object that embeds it
+			v := call.Call.Args[0]
+			if fa, ok := v.(*ssa.FieldAddr); ok && fieldName(deref(fa.X.Type()), fa.Field) == "object" {
+				v = fa.X
+			}
+			return v
+		}
+		return nil
+	}
+	// the scope compared with is the scope of the object's OWN package: <o>.Parent() == <o>.Pkg().Scope() for one
+	// and the same o - the scope of the package under analysis is another scope for every imported object
+	sameObject := func(parent, scope ssa.Value) bool {
+		var objs []string
+		for _, r := range P.ResolveDeep(parent) {
+			if call, ok := r.(*ssa.Call); ok && recvOf(call) != nil {
+				objs = append(objs, P.Desc(recvOf(call)))
+			}
+		}
+		if len(objs) == 0 {
+			return false
+		}
+		return P.RootsAllDeep(scope, func(r ssa.Value) bool {
+			sc := P.CallTo(r, "(*go/types.Package).Scope")
+			if sc == nil || recvOf(sc) == nil {
+				return false
+			}
+			return P.RootsAllDeep(recvOf(sc), func(pr ssa.Value) bool {
+				pc, ok := pr.(*ssa.Call)
+				if !ok || !strings.HasSuffix(P.calleeName(pc.Common()), ").Pkg") || !strings.Contains(P.calleeName(pc.Common()), "go/types.") || recvOf(pc) == nil {
+					return false
+				}
+				d := P.Desc(recvOf(pc))
+				for _, o := range objs {
+					if o == d {
+						return true
+					}
+				}
+				return false
+			})
+		})
+	}
+	switch {
+	case isParent(l.X) && isScope(l.Y):
+		return true, sameObject(l.X, l.Y)
+	case isParent(l.Y) && isScope(l.X):
+		return true, sameObject(l.Y, l.X)
+	}
+	return false, false
+}
+
+// foreignScopeCmp: l, or a part of it, compares an object's Parent() with the scope of another package than its own.
+func (c *Ctx) foreignScopeCmp(l Lit) bool {
+	if is, same := c.scopeCmp(l); is && !same {
+		return true
+	}
+	for _, sl := range l.Subs {
+		if c.foreignScopeCmp(sl) {
+			return true
+		}
+	}
+	return false
+}
+
+func (c *Ctx) pkgLevelPred() func(l Lit) bool {
+	P := c.P
+	isParent := func(v ssa.Value) bool {
+		return P.RootsAllDeep(v, func(r ssa.Value) bool {
+			call, ok := r.(*ssa.Call)
+			return ok && strings.HasSuffix(P.calleeName(call.Common()), ").Parent") && strings.Contains(P.calleeName(call.Common()), "go/types.")
+		})
+	}
 	atom := func(l Lit) string {
 		if l.Kind != "eq" || !l.Pos {
 			return ""
 		}
+		if is, same := c.scopeCmp(l); is {
+			if same {
+				return "scope"
+			}
+			return ""
+		}
 		switch {
-		case isParent(l.X) && isScope(l.Y), isParent(l.Y) && isScope(l.X):
-			return "scope"
 		case isParent(l.X) && isNilConst(l.Y), isParent(l.Y) && isNilConst(l.X):
 			return "nil"
 		}
